@@ -1,6 +1,6 @@
 (* Comparator for the C19 correspondence (tie K): each case carries an abstract response (or a
    chunk list) and what the implementation did; the checker says whether the model agrees. *)
-From PK Require Export Base.Bytes Client.Client Client.Framing.
+From PK Require Export Base.Bytes Client.Client Client.Framing Client.EndToEnd.
 From Coq Require Import ZArith List Bool.
 Import ListNotations.
 Open Scope Z_scope.
@@ -60,11 +60,15 @@ Definition fres_eqb (a b : fres) : bool :=
 Inductive ccase :=
 | CPie (o : op) (r : resp) (obs : outcome)          (* ProxyKmipClient.<o> on response r did obs *)
 | CProxy (o : op) (r : resp) (obs : pout)           (* KMIPProxy.<o> on response r did obs *)
-| CRead (chunks : list bytes) (obs : fres).         (* KMIPProtocol.read on this transport did obs *)
+| CRead (chunks : list bytes) (obs : fres)          (* KMIPProtocol.read on this transport did obs *)
+| CCall (o : op) (chunks : list bytes) (frame : bytes) (r : resp) (obs : outcome).
+   (* ProxyKmipClient.<o> did obs when the transport delivered `chunks`; the real decoder maps `frame` to r *)
 
 Definition check_ccase (c : ccase) : bool :=
   match c with
   | CPie o r obs => outcome_eqb (interpret o r) obs
   | CProxy o r obs => pout_eqb (proxy_call o r) obs
   | CRead chunks obs => fres_eqb (read chunks) obs
+  | CCall o chunks frame r obs =>
+      outcome_eqb (client_call (fun f => if bytes_eqb f frame then r else Undecodable) o chunks) obs
   end.
